@@ -11,6 +11,8 @@ import (
 	"sort"
 	"strconv"
 	"strings"
+	"sync"
+	"sync/atomic"
 	"time"
 
 	"github.com/absfs/absnfs"
@@ -24,6 +26,13 @@ func init() {
 		tableReplay := opsReplay("handles", runHandleOps, func(r *Result, ops, impl []string) { handleOracle(r, ops, impl, prop) })
 		served := caseReplay(func(c SrvCase) []Violation { return judgeServedHandles(c, prop) })
 		replays[prop] = func(r *Result, raw json.RawMessage) {
+			var ro struct {
+				Ops []string `json:"ops"`
+			}
+			if json.Unmarshal(raw, &ro) == nil && len(ro.Ops) > 0 && ro.Ops[0] == "issued-handle-under-concurrent-relookups" {
+				issuedHandleUnderConcurrentRelookups(r, 600000)
+				return
+			}
 			var rp struct {
 				Case *SrvCase `json:"case"`
 			}
@@ -384,6 +393,11 @@ func checkHandles(r *Result, rng *rand.Rand, thorough bool, prop string) {
 	}
 	if prop == "C06" {
 		staleCheck(r, rng)
+		iters := 600000
+		if thorough {
+			iters = 3000000
+		}
+		issuedHandleUnderConcurrentRelookups(r, iters)
 	}
 	servedHandles(r, rng, thorough, prop)
 	compareWithModel(r, "handles", cases, impl, runHandleOps)
@@ -479,4 +493,37 @@ func staleCheck(r *Result, rng *rand.Rand) {
 	}
 	_, _ = d2, e2
 	_ = binary.BigEndian
+}
+
+// issuedHandleUnderConcurrentRelookups: a table at its limit (2) used by two clients at once. One keeps re-looking-up
+// one path (the de-duplication branch of Allocate); the other allocates handles for fresh paths and uses each at once.
+// A value just issued for a path resolves to that path, or — if the other client's allocation evicted it in between — to
+// nothing (NFS3ERR_STALE); it never resolves to the other client's path. (A de-duplication hit that writes through a
+// handle value read before the lock was taken does exactly that when the value was evicted and reissued meanwhile.)
+func issuedHandleUnderConcurrentRelookups(r *Result, iters int) {
+	fm := absnfs.VerifNewFileHandleMap(2)
+	var stopped atomic.Bool
+	var wg sync.WaitGroup
+	wg.Add(1)
+	go func() {
+		defer wg.Done()
+		for !stopped.Load() {
+			absnfs.VerifAllocPath(fm, "/P")
+		}
+	}()
+	r.noteCase("issued-handle-under-concurrent-relookups", true)
+	r.Histogram["concurrent-relookup-iterations"] += iters
+	for i := 0; i < iters; i++ {
+		q := fmt.Sprintf("/q%d", i)
+		v := absnfs.VerifAllocPath(fm, q)
+		if p, ok := absnfs.VerifGetPath(fm, v); ok && p != q {
+			stopped.Store(true)
+			wg.Wait()
+			r.violate(Violation{Class: "C06/issued-handle-repointed-under-concurrency", What: fmt.Sprintf("handle %d was issued for %q and, used at once, resolves to %q (a table of 2 handles shared with a client that keeps re-looking-up /P)", v, q, p),
+				Ops: []string{"issued-handle-under-concurrent-relookups"}})
+			return
+		}
+	}
+	stopped.Store(true)
+	wg.Wait()
 }
